@@ -289,6 +289,9 @@ class SymDict:
         kt = sterm(key)
         t = self.tree()
         t2 = z3.Const(ctx.fresh_name("tree"), TREE)
+        if isinstance(value, (SymDict, ItemsMap)) and getattr(value, "external", False):
+            # ghost: a mapping object that came in as (part of) an argument is stored BY REFERENCE (store and argument now share it)
+            ctx.ghost.setdefault("aliased", []).append((self, key, value))
         if isinstance(value, SymDict):
             child = value.tree()
             value.root.stored = True
